@@ -131,6 +131,67 @@ def soak_then_reprobe(rec, label, probes, soak_iter, n):
         p()
 
 
+def threaded_reprobe(rec, label, thunks, threads=4, rounds=1, switch_interval=2e-5):
+    """Concurrent use.  `thunks` = [(name, fn)]; every fn() calls the library with fixed valid arguments and returns a value.
+    Each thunk is first run on its own in the main thread with the monitors on (that call is judged like any other and its value
+    is the baseline); then `threads` threads run all thunks at the same time, each in another rotation, with a very short
+    interpreter switch interval so that calls of different threads interleave inside the library.  Oracle: every value obtained
+    under concurrency has the same value digest (or exception type) as the single-threaded baseline.  The monitors are in
+    pass-through while the threads run (their bookkeeping is single-threaded); nothing but the library runs concurrently."""
+    import sys
+    import threading
+    from ..history import digest as D
+    from ..monitors import install as _install
+
+    def outcome(fn):
+        try:
+            return "ok:" + D.dg(fn())
+        except CallTimeout:
+            raise
+        except Exception as e:
+            return "exc:" + type(e).__name__
+    rec.case("threads:" + label, None, nontrivial=False)
+    base = [outcome(fn) for _, fn in thunks]
+    again = [outcome(fn) for _, fn in thunks]
+    stable = [i for i in range(len(thunks)) if base[i] == again[i]]          # a thunk that is not repeatable on its own is another check's business
+    results = [[] for _ in range(threads)]
+    start = threading.Barrier(threads)
+
+    def worker(t):
+        try:
+            start.wait(timeout=60)
+        except threading.BrokenBarrierError:
+            pass
+        for r_ in range(rounds):
+            for j in range(len(stable)):
+                # round 0: every thread in the same order (the same operation in all threads at once); later rounds: spread out
+                i = stable[(j + t * r_ * max(1, len(stable) // threads) + r_) % len(stable)]
+                results[t].append((i, outcome(thunks[i][1])))
+    old = sys.getswitchinterval()
+    _install.PASSTHROUGH[0] = True
+    sys.setswitchinterval(switch_interval)
+    try:
+        ths = [threading.Thread(target=worker, args=(t,), daemon=True) for t in range(threads)]
+        for th in ths:
+            th.start()
+        for th in ths:
+            th.join()
+    finally:
+        sys.setswitchinterval(old)
+        _install.PASSTHROUGH[0] = False
+    n = 0
+    for t in range(threads):
+        for i, got in results[t]:
+            n += 1
+            rec.case("threads:" + label, ("thr", label, thunks[i][0], t, n), nontrivial=True,
+                     sample={"fn": thunks[i][0], "threads": threads, "what": "same call while %d other threads are inside the library" % (threads - 1)} if n <= 2 else None)
+            rec.check("B-driver.threads", got == base[i], "threads:" + label,
+                      "%s returns another value (or raises) when other threads are inside the library at the same time: single-threaded %s, concurrent %s" % (thunks[i][0], base[i][:40], got[:40]),
+                      case={"fn": "threads", "label": label, "thunk": thunks[i][0], "threads": threads}, facts={"fn": thunks[i][0].split("[")[0], "kind": "differs-under-concurrency"})
+    rec.event("threads:%s:concurrent-calls" % label, n)
+    rec.event("threads:%s:threads" % label, threads)
+
+
 # ---------------------------------------------------------------------------------------------- value shapes
 class IntSub(int):
     """A legal int (isinstance(x, int) holds) that is not exactly `int`: type(x) is int checks and C fast paths treat it differently."""
